@@ -37,7 +37,7 @@ MANIFEST = {
     "technique": "Lean 4 proof (executable model, Mathlib group law through the C02 refinement, decide over generated tables) + "
                  "differential correspondence model vs implementation + independent reference oracle",
 }
-RULE = ("ops bip32_master/bip32_node/bip32_pubcopy/bip32_ckd/bip32_path/bip32_nodepath/bip32_ser/bip32_deser/hwif/hparse/subpaths/"
+RULE = ("ops bip32_ckdraw/bip32_ckdpubraw/bip32_spec/bip32_master/bip32_node/bip32_pubcopy/bip32_ckd/bip32_path/bip32_nodepath/bip32_ser/bip32_deser/hwif/hparse/subpaths/"
         "bip32_hist/bip32_pathhist/bip32_subkeys/electrum_new/electrum_subkey; boundary corpus (BIP32 vectors 1-3, indices 0, 1, "
         "2^24-1, 2^24, 2^31-1, 2^31 hardened and not, parents whose exponent has leading zero bytes, depth 255/256, every network "
         "x prefix kind, wrong-length / wrong-prefix / corrupted extended keys, path spellings, ranges) + seeded random seeds, paths, "
@@ -163,6 +163,29 @@ def show_wallet(w) -> str:
     return "%s %d,%d %s" % ("-" if se is None else "%d" % se, x, y, mpk)
 
 
+class _StubGen:
+    """secp256k1's generator reporting another `order()`: bip32.py takes the generator as an argument and reads its order,
+    so an order near 2^255 makes `I_L >= n` (the retry branch of subkey_secret_exponent_chain_code_pair) happen for real"""
+
+    def __init__(self, order):
+        self._order = order
+        self._g = net("btc").generator
+
+    def order(self):
+        return self._order
+
+    def infinity(self):
+        return self._g.infinity()
+
+    def Point(self, x, y):
+        return self._g.Point(x, y)
+
+    def __rmul__(self, e):
+        return e * self._g
+
+    __mul__ = __rmul__
+
+
 # ------------------------------------------------------------------ implementation adapter
 
 def impl(op: str) -> str:
@@ -194,6 +217,35 @@ def impl(op: str) -> str:
             return "ok %s %s %s" % (show_node(n), t(True), t(False))
         if k == "bip32_nodepath":
             return "ok " + show_node(mk_node(a[1]).subkey_for_path(h2s(a[2])))
+        if k == "bip32_ckdraw":
+            from pycoin.key.bip32 import subkey_secret_exponent_chain_code_pair
+            x, y = a[6].split(",")
+            r = subkey_secret_exponent_chain_code_pair(_StubGen(int(a[1])), int(a[2]), unhx(a[3]), int(a[4]), a[5] == "1", (int(x), int(y)))
+            return "ok %d %s" % (r[0], hx(r[1]))
+        if k == "bip32_ckdpubraw":
+            from pycoin.key.bip32 import subkey_public_pair_chain_code_pair
+            x, y = a[2].split(",")
+            pt, cc = subkey_public_pair_chain_code_pair(_StubGen(int(a[1])), (int(x), int(y)), unhx(a[3]), int(a[4]))
+            return "ok %d,%d %s" % (pt[0], pt[1], hx(cc))
+        if k == "bip32_spec":
+            # the model side of this op runs the BIP32 *specification* (Spec/BIP32.lean); here: the implementation
+            name, kind, seed, pub_first = a[1], int(a[2]), unhx(a[3]), a[5] == "1"
+            idxs = [] if a[4] == "~" else [int(x) for x in a[4].split(",")]
+            try:
+                m = cls_for(name, kind).from_master_secret(seed)
+            except ValueError:
+                return "invalid"
+            if pub_first:
+                m = m.public_copy()
+            path = "/".join("%d%s" % (i & 0x7FFFFFFF, "H" if i >> 31 else "") for i in idxs)
+            try:
+                n = m.subkey_for_path(path)
+            except Exception as e:  # noqa: BLE001
+                if type(e).__name__ == "PublicPrivateMismatchError":
+                    return "failure"
+                raise
+            prv = s2h(n.hwif(as_private=True)) if n.secret_exponent() is not None else "-"
+            return "ok %s %s" % (prv, s2h(n.hwif(as_private=False)))
         if k == "bip32_ser":
             return "ok " + hx(mk_node(a[1]).serialize(as_private=opt_bool(a[2])))
         if k == "bip32_deser":
@@ -525,6 +577,37 @@ def oracle(op: str, out: str):
             tok2, _p2, tpub2 = r[3:].split(" ")
             if _check_node(tok2, ref_public(want), "x") or tpub2 != tpub:
                 return "deriving from the public copy does not give the public half of the private derivation"
+    if k == "bip32_ckdraw" and out.startswith("ok "):
+        n, se, cc, i, hard = int(a[1]), int(a[2]), unhx(a[3]), int(a[4]), a[5] == "1"
+        x, y = (int(t) for t in a[6].split(","))
+        if 0 <= i < 2 ** 32 and 0 <= se < 2 ** 256:
+            ser32 = i.to_bytes(4, "big")
+            data = (b"\0" + se.to_bytes(32, "big") if hard else ser_p((x, y))) + ser32
+            for _ in range(200):
+                i64 = hmac.new(cc, data, hashlib.sha512).digest()
+                il = int.from_bytes(i64[:32], "big")
+                if il < n and (il + se) % n != 0:
+                    break
+                data = b"\1" + i64[32:] + ser32
+            if out != "ok %d %s" % ((il + se) % n, hx(i64[32:])):
+                return "child exponent / chain code is not that of the first HMAC output with I_L < n and a non-zero child"
+    if k == "bip32_ckdpubraw" and out.startswith("ok "):
+        n, cc, i = int(a[1]), unhx(a[3]), int(a[4])
+        x, y = (int(t) for t in a[2].split(","))
+        if 0 <= i < 2 ** 31:
+            i64 = hmac.new(cc, ser_p((x, y)) + i.to_bytes(4, "big"), hashlib.sha512).digest()
+            want = ec_add(ec_mul(int.from_bytes(i64[:32], "big") % n), (x, y))
+            if want is not None and out != "ok %d,%d %s" % (want[0], want[1], hx(i64[32:])):
+                return "public child is not (I_L mod n)*G + K with chain code I_R"
+    if k == "bip32_spec" and out.startswith("ok "):
+        name, kind, seedh, pub_first = a[1], int(a[2]), a[3], a[5] == "1"
+        idxs = [] if a[4] == "~" else [int(x) for x in a[4].split(",")]
+        norm = "/".join("%d%s" % (i & 0x7FFFFFFF, "H" if i >> 31 else "") for i in idxs)
+        tprv, tpub = out[3:].split(" ")
+        if name == "btc" and kind == 32 and seedh in VECTORS and norm in VECTORS[seedh]:
+            xpub, xprv = VECTORS[seedh][norm]
+            if tpub != s2h(xpub) or (not pub_first and tprv != s2h(xprv)):
+                return "BIP32 test vector not reproduced"
     if k == "bip32_nodepath":
         path = h2s(a[2])
         # spellings: H, p and ' are interchangeable
@@ -672,6 +755,9 @@ def neighbours(op, rng):
         for i in (0, 1, 2 ** 24 - 1, 2 ** 24, 2 ** 31 - 1, rng.randrange(2 ** 31)):
             for h in "01":
                 yield "bip32_ckd %s %d %s %s" % (a[1], i, h, a[4])
+    elif a[0] == "bip32_ckdraw":
+        for i in (0, 2 ** 24, rng.randrange(2 ** 32)):
+            yield " ".join(a[:3] + [hx(bytes(rng.randrange(256) for _ in range(32))), str(i)] + a[5:])
     elif a[0] == "bip32_path":
         for p in ("0", "0H", "1/2", "16777216", "2147483647H/16777215", "0/1/2/3"):
             yield " ".join(a[:4] + [s2h(p), a[5]])
@@ -717,6 +803,21 @@ def gen(ctx, emit):
                 emit("bip32_path btc 32 %s %s 1" % (seedh, s2h(p)))
             emit("bip32_path btc 32 %s %s 0" % (seedh, s2h(p + ".pub")))
     emit("bip32_path btc 32 000102030405060708090a0b0c0d0e0f %s 1" % s2h("0/1/2"))
+    # the specification itself (model side = Spec/BIP32.lean over the executable curve) on the vectors and on random chains
+    def idx_list(p):
+        return ",".join("%d" % (int(v[:-1]) + 2 ** 31 if v[-1] == "H" else int(v)) for v in p.split("/")) if p else "~"
+    for seedh, paths in VECTORS.items():
+        for p in paths:
+            emit("bip32_spec btc 32 %s %s 0" % (seedh, idx_list(p)))
+    emit("bip32_spec btc 32 000102030405060708090a0b0c0d0e0f 0,1,16777216 1")
+    emit("bip32_spec btc 32 000102030405060708090a0b0c0d0e0f 0,2147483648 1")
+    for _ in range(ctx.n(6, 150)):
+        depth = rng.randint(1, 3)
+        pub_first = rng.random() < 0.3
+        idxs = [rng.choice(BOUNDARY_I + [rng.randrange(2 ** 31)]) + (0 if pub_first or rng.random() < 0.5 else 2 ** 31) for _ in range(depth)]
+        kind = rng.choice([32, 49, 84])
+        emit("bip32_spec %s %d %s %s %d" % (rng.choice(["btc", "xtn", "ltc"]), kind, hx(bytes(rng.randrange(256) for _ in range(16))),
+                                            ",".join(map(str, idxs)), 1 if pub_first else 0))
     emit("bip32_path btc 32 000102030405060708090a0b0c0d0e0f %s 0" % s2h("0/1/2"))
 
     # --- index boundaries, hardened and not, private and public parents, every as_private
@@ -730,6 +831,18 @@ def gen(ctx, emit):
         emit("bip32_ckd %s 5 0 %s" % (base, p))
         emit("bip32_ckd %s 5 1 %s" % (base, p))
         emit("bip32_ckd %s 5 0 %s" % (base_pub, p))
+    # --- bip32.py called directly with a generator reporting an order near 2^255 / 2^254: the retry loop runs for real
+    for _ in range(ctx.n(60, 2000)):
+        order = rng.choice([N, 2 ** 255, 2 ** 255 + 12345, 2 ** 254 + 1, N - 1, 3 * 2 ** 254])
+        se = rng.randrange(1, order)
+        pub = ec_mul(se)
+        hard = rng.choice("01")
+        i = rng.choice(BOUNDARY_I + [2 ** 31, 2 ** 32 - 1, rng.randrange(2 ** 32)])
+        emit("bip32_ckdraw %d %d %s %d %s %d,%d" % (order, se, hx(rb(32)), i, hard, pub[0], pub[1]))
+        if rng.random() < 0.3:
+            emit("bip32_ckdpubraw %d %d,%d %s %d" % (order, pub[0], pub[1], hx(rb(32)), rng.choice(BOUNDARY_I + [rng.randrange(2 ** 31)])))
+    emit("bip32_ckdraw %d 5 %s %d 0 %d,%d" % (2 ** 255, "00" * 32, 2 ** 32, G[0], G[1]))
+    emit("bip32_ckdpubraw %d %d,%d %s %d" % (2 ** 255, G[0], G[1], "00" * 32, 2 ** 31))
     # --- parents whose secret exponent has leading zero bytes (fixed-width 32-byte serialisation in the hardened data)
     for se in (1, 2, 255, 256, 2 ** 64 - 1, 2 ** 200 + 12345, 2 ** 248 - 1, 2 ** 248, N - 1):
         t = rand_priv_tok(se=se)
